@@ -1,6 +1,10 @@
 package props
 
-import "github.com/protobom/protobom/pkg/native"
+import (
+	"os"
+
+	"github.com/protobom/protobom/pkg/native"
+)
 
 func renderOpts(indent int) *native.RenderOptions { return &native.RenderOptions{Indent: indent} }
 
@@ -15,3 +19,5 @@ func dedupe(in []string) []string {
 	}
 	return out
 }
+
+func osReadFile(p string) ([]byte, error) { return os.ReadFile(p) }
